@@ -404,7 +404,13 @@ pub fn run_connection(conn: &mut Conn<'_, '_>, steps_left: &mut u32) -> ConnEnd 
             None
         });
         if let Some(b) = burn_now {
-            conn.verif_burn_packet_ids(b);
+            if with(|w| w.tape.chance(1, 400)) {
+                // the long way, without the hook: refused requests consume identifiers too
+                burn_by_refused_requests(conn, b);
+                with(|w| w.probe("identifier_wrap_without_hook"));
+            } else {
+                conn.verif_burn_packet_ids(b);
+            }
         }
         let step = with(pick_step);
         let mut res: Option<Res> = None;
@@ -774,6 +780,32 @@ pub fn final_phase(session: &mut Session<'_>, mut drained: bool) {
             }
         });
     }
+}
+
+/// Consume `n` identifiers through the public API only: a QoS 1 publish whose payload cannot
+/// fit the arena is refused after its identifier was allocated.
+fn burn_by_refused_requests(conn: &mut Conn<'_, '_>, n: u32) {
+    let huge = vec![0u8; with(|w| w.cfg.tx_len) + 8];
+    let opts = ExecOpts { cancellable: false, idle_cancel: true, budget_us: None, timer_is_idle: false };
+    with(|w| {
+        w.op_label = "publish1";
+        w.offered_now.clear();
+    });
+    let was_benign = with(|w| std::mem::replace(&mut w.benign, true));
+    for _ in 0..n {
+        let p = minimq::Publication::bytes("burn", &huge[..]).qos(QoS::AtLeastOnce);
+        match exec(conn.publish(p), opts) {
+            Some(Err(_)) => {}
+            _ => break, // accepted or cancelled: stop (cannot happen with a payload larger than the arena)
+        }
+        if !conn.is_connected() {
+            break;
+        }
+    }
+    with(|w| {
+        w.benign = was_benign;
+        w.expect = None;
+    });
 }
 
 /// C07: fill up to 16 *consecutive* identifiers with long-lived operations (QoS 2 exchanges
